@@ -104,7 +104,7 @@ def run(ctx):
         i, rec = t
         d = os.path.join(base, f"p{i}")
         os.makedirs(d, exist_ok=True)
-        write_project(d, rec["imp"])
+        write_project(d, rec["imp"], "fn", rec.get("oncycle") or ())
         runs = [("parallel", compile_once(erg, d, env, {}))]
         for s_ in seeds:
             runs.append((f"parallel jitter={s_}", compile_once(erg, d, env, {"ERG_VERIF_JITTER": str(s_)})))
